@@ -3,7 +3,9 @@ package props
 import (
 	"fmt"
 	"strings"
+	"time"
 
+	"github.com/indexsupply/shovel/jrpc2"
 	"github.com/indexsupply/shovel/shovel/config"
 
 	"verifharness/core"
@@ -26,6 +28,10 @@ func runC02(e *core.Env) error {
 		if err != nil {
 			return err
 		}
+		if h%4 == 2 {
+			w.client = jrpc2.New(w.node.URL()).WithMaxReads(3 + rr.Intn(4)).WithPollDuration(time.Hour)
+			w.tags["caching-client"]++
+		}
 		root := config.Root{Integrations: []config.Integration{transferIG("ig1", "t1", []string{"block_time"}, nil)}}
 		if err := w.setupRoot(&root); err != nil {
 			w.close()
@@ -37,6 +43,9 @@ func runC02(e *core.Env) error {
 			return err
 		}
 		withReorgs := h%2 == 1
+		// a CACHING client on a static chain: blocks fetched by a step that then fails stay in the
+		// client's segment cache, and the retry attaches its logs to those same blocks again
+		cached := h%4 == 2
 		growthOnly := true
 		snaps := map[string]*fakepg.DB{}
 		var oracles []string
@@ -47,7 +56,7 @@ func runC02(e *core.Env) error {
 			case withReorgs && st > 0 && rr.Chance(1, 2):
 				w.reorg(1+rr.Intn(3), 1+rr.Intn(4))
 				growthOnly = false
-			case rr.Chance(1, 2):
+			case !cached && rr.Chance(1, 2):
 				w.grow(1 + rr.Intn(3))
 			}
 			w.save("p", snaps)
